@@ -659,11 +659,11 @@ def _ck(case):
 
 def run_impl(case):
     case = _tolist(case)
-    k = _ck(case)
-    obs = run_build(case) if case["fam"] == "build" else run_rt_full(case)
-    if len(_CACHE) > 6000:
-        _CACHE.clear()
-    _CACHE[k] = obs
+    obs = run_build(case) if case["fam"] == "build" else run_rt(case)
+    if case["fam"] == "rt":
+        # the model's input is the BEFORE snapshot of exactly this run (set iteration orders inside the
+        # library make input-side signal lists vary between runs), so the term is fixed here
+        _CACHE[_ck(case)] = _rt_term(case, obs)
     return obs
 
 
@@ -671,11 +671,6 @@ def _tolist(x):
     if isinstance(x, dict):
         return {k: _tolist(v) for k, v in x.items()}
     return [_tolist(e) for e in x] if isinstance(x, (list, tuple)) else x
-
-
-def run_rt_full(case):
-    r = run_rt(case)
-    return r
 
 
 def _ascii(x):
@@ -693,19 +688,23 @@ def flat_modelled(case, before):
                                                       for k in before[KIDS]))
 
 
-def model_term(case):
-    case = _tolist(case)
-    if case["fam"] == "build":
-        return build_term(case)
-    obs = _CACHE.get(_ck(case))
-    if obs is None:
-        obs = run_impl(case)
+def _rt_term(case, obs):
     if obs == "timeout" or not _ascii(obs):
         return None
     before, after, rr, ppath = obs
     bk = "BFile" if case["backend"] == "file" else "BPickle"
     rerun = flat_modelled(case, before) and bool(rr)
     return (f"obs_case {cn(case['trips'])} {bk} {cb(rerun)} {cn(FUEL)}\n ({ctx_coq(before[PAR], ppath)},\n {node_coq(before)})")
+
+
+def model_term(case):
+    case = _tolist(case)
+    if case["fam"] == "build":
+        return build_term(case)
+    k = _ck(case)
+    if k not in _CACHE:
+        run_impl(case)
+    return _CACHE[k]
 
 
 def _rrview(r):
@@ -1092,7 +1091,7 @@ def gen_rt(rng):
 def generate(ctx):
     rng = ctx.rng
     cases, seen = [], set()
-    n_rt, n_b = ctx.n(800, 6000), ctx.n(200, 1500)
+    n_rt, n_b = ctx.n(700, 5000), ctx.n(180, 1200)
     while len(cases) < n_rt:
         c = gen_rt(rng)
         k = _ck(c)
